@@ -57,7 +57,7 @@ JudgeHelpers(e) ==
                            LET s == Score(A, e.M, e.sc[k][1], e.sc[k][2], e.sc[k][3]) IN
                            o.score[k][1] = s[1] /\ (s[1] = "ok" => o.score[k][2] = s[2])
       flags == <<okValid, okCodes, okTfs, okFasta, okTerm, okRterm, okRgaps, okIdent, okPident, okScore>>
-  IN IF \A k \in DOMAIN flags : flags[k] THEN TRUE
+  IN IF okValid /\ okCodes /\ okTfs /\ okFasta /\ okTerm /\ okRterm /\ okRgaps /\ okIdent /\ okPident /\ okScore THEN TRUE
      ELSE PrintT(<<"MISMATCH", tid, l + 1, flags,
                    [codes |-> Codes(A), back |-> back, term |-> <<f.oc, f.start, f.stop>>,
                     rterm |-> <<rt.oc, rt.A.tr>>, rgaps |-> RemoveGaps(A).tr,
@@ -75,7 +75,7 @@ JudgeIndex(e) ==
                   /\ ForwardPos(Resolve(e.cidx, NCols(A)).pos)) => ValidTrace(Aln(e.obs[2], e.obs[3]))
       flags == <<okOc, okA, okValid>>
   IN IF okOc /\ okA /\ okValid THEN TRUE
-     ELSE PrintT(<<"MISMATCH", tid, l + 1, flags, <<r.oc, r.A.seqs, r.A.tr>>>>)
+     ELSE PrintT(<<"MISMATCH", tid, l + 1, flags, <<r.oc, r.A.seqs, r.A.tr, KB_C11_IntIndex1D(e.cidx, e.ridx)>>>>)
 
 (* ------------------------------------------------------------------ CIGAR *)
 OptsOfEvent(o) == Opts(o.ref, o.seg, o.introns, o.distinguish, o.hard, o.terminal)
